@@ -1,6 +1,7 @@
 package rv
 
 import (
+	"fmt"
 	"regexp"
 	"strings"
 )
@@ -10,6 +11,52 @@ import (
 type luaReturn struct {
 	Off   int
 	Conds []string
+	Kind  string   // "return", or "call:<lower-case redis command>" for redis.call / redis.pcall
+	Sig   []string // enclosing if-blocks as "<block id>.<arm index>", outermost first
+	Loop  bool     // inside for / while / repeat
+}
+
+var luaRedisCall = regexp.MustCompile(`^redis\.p?call\(\s*["']([A-Za-z.]+)["']`)
+
+// luaCoExecutable reports whether the earlier site a and the later site b can both execute in one
+// run as far as block structure tells: not when they sit in different arms of one if-block, and
+// not when a return between them closes an arm that encloses a.
+func luaCoExecutable(a, b luaReturn, sites []luaReturn) bool {
+	for i := 0; i < len(a.Sig) && i < len(b.Sig); i++ {
+		ba, bb := a.Sig[i][:strings.IndexByte(a.Sig[i], '.')], b.Sig[i][:strings.IndexByte(b.Sig[i], '.')]
+		if ba != bb {
+			break
+		}
+		if a.Sig[i] != b.Sig[i] {
+			return false
+		}
+	}
+	for _, r := range sites {
+		if r.Kind != "return" || r.Off <= a.Off || r.Off >= b.Off || len(r.Sig) > len(a.Sig) {
+			continue
+		}
+		pre := true
+		for i := range r.Sig {
+			if r.Sig[i] != a.Sig[i] {
+				pre = false
+			}
+		}
+		if pre {
+			return false
+		}
+	}
+	return true
+}
+
+// luaReturnsOnly filters the scan down to the return statements.
+func luaReturnsOnly(sites []luaReturn) []luaReturn {
+	var out []luaReturn
+	for _, s := range sites {
+		if s.Kind == "return" {
+			out = append(out, s)
+		}
+	}
+	return out
 }
 
 // luaReturns is a block-structure scan of Lua source (comments and string literals skipped):
@@ -19,9 +66,25 @@ func luaReturns(src string) []luaReturn {
 	type blk struct {
 		kind string
 		cond string
+		id   int
+		arm  int
 	}
 	var stack []blk
 	var out []luaReturn
+	nextID := 0
+	mk := func(kind string, off int) luaReturn {
+		lr := luaReturn{Off: off, Kind: kind}
+		for _, b := range stack {
+			if b.kind == "if" {
+				lr.Conds = append(lr.Conds, b.cond)
+				lr.Sig = append(lr.Sig, fmt.Sprintf("%d.%d", b.id, b.arm))
+			}
+			if b.kind == "for" || b.kind == "while" || b.kind == "repeat" {
+				lr.Loop = true
+			}
+		}
+		return lr
+	}
 	isW := func(c byte) bool {
 		return c == '_' || c >= 'a' && c <= 'z' || c >= 'A' && c <= 'Z' || c >= '0' && c <= '9'
 	}
@@ -65,10 +128,22 @@ func luaReturns(src string) []luaReturn {
 			w := src[i:j]
 			switch w {
 			case "if":
-				stack = append(stack, blk{kind: "if"})
+				nextID++
+				stack = append(stack, blk{kind: "if", id: nextID})
 				condStart = j
 			case "elseif":
+				if len(stack) > 0 {
+					stack[len(stack)-1].arm++
+				}
 				condStart = j
+			case "else":
+				if len(stack) > 0 {
+					stack[len(stack)-1].arm++
+				}
+			case "redis":
+				if m := luaRedisCall.FindStringSubmatch(src[i:]); m != nil {
+					out = append(out, mk("call:"+strings.ToLower(m[1]), i))
+				}
 			case "then":
 				if condStart >= 0 && len(stack) > 0 {
 					top := &stack[len(stack)-1]
@@ -94,13 +169,7 @@ func luaReturns(src string) []luaReturn {
 					stack = stack[:len(stack)-1]
 				}
 			case "return":
-				lr := luaReturn{Off: i}
-				for _, b := range stack {
-					if b.kind == "if" {
-						lr.Conds = append(lr.Conds, b.cond)
-					}
-				}
-				out = append(out, lr)
+				out = append(out, mk("return", i))
 			}
 			i = j
 		default:
